@@ -38,6 +38,12 @@ def run(ctx):
                             fates=("ok", "retry1"), maxfail=1)
         cases += X.generate(ctx, n // 2, ctx.seed + 8, K=4, acc=("x", "y"), level=2, maxlen=2,
                             fates=("ok", "retry1"), maxfail=2)
+    # directed behaviours (input classes the random walks reach only on some seeds): a retryable first attempt of a
+    # transaction that write-locks accounts which do not exist yet, dispatched after a committed world-lock transaction
+    import json, os
+    dfile = os.path.join(os.path.dirname(os.path.abspath(__file__)), "..", "..", "spec", "exec", "Directed_ParallelExec.ndjson")
+    directed = [json.loads(l) for l in open(dfile) if l.strip()]
+    cases = directed + cases
     # 3. replay: sequential executor, the TLC schedule on the concurrent executor, one free-running execution
     recs = X.replay(ctx, cases, shards=ctx.pick(2, 4))
     # 4. the recorded free-running executions are validated by TLC
